@@ -344,6 +344,8 @@ func runC01(ctx *Ctx) {
 	// 8. the article extractor on pages shaped after its filters' thresholds: through Apply
 	// (fuzz), and stage by stage against the model whose totality theorem (filters_total) covers
 	// the index arithmetic of SimilarSiblingContent; a panic of the real filters is a violation
+	// 9. which element the distiller works on (theorems root_is_element / root_error_iff)
+	rootSelectCorr(ctx, ctx.pick(60, 3000))
 	fl := newCorr("filters")
 	tr := newCorr("textrender")
 	for i := 0; i < ctx.pick(150, 6000); i++ {
